@@ -13,6 +13,12 @@ use muxide::assert_invariant;
 fn read_hex_bytes(contents: &str) -> Vec<u8> {
     let hex: String = contents.chars().filter(|c| !c.is_whitespace()).collect();
     assert!(hex.len() % 2 == 0, "hex must have even length");
+    // u8::from_str_radix accepts a leading '+', so "+f" would decode as 0x0f: every character
+    // has to be a hexadecimal digit.
+    assert!(
+        hex.chars().all(|c| c.is_ascii_hexdigit()),
+        "input must consist of hexadecimal digits only"
+    );
 
     let mut out = Vec::with_capacity(hex.len() / 2);
     for i in (0..hex.len()).step_by(2) {
